@@ -22,7 +22,11 @@ Record finalobs := {
   fo_pool : list (Z * Z * Z * Z * Z);                 (* id, sender, token, amount, tax *)
   fo_batches : list (Z * Z * list (Z * Z * Z * Z * Z)); (* nonce, token, transfers *)
   fo_bals : list (list Z);                            (* per token, per account *)
-  fo_usages : list (option (Z * Z))                   (* per token *)
+  fo_usages : list (option (Z * Z));                  (* per token *)
+  (* what the real store returns for BridgeTax(denom) / BridgeTransferLimit(denom) with the exact denom of
+     each token: (num, den) of the stored rate string, exempt accounts in stored order; (limit, period code) *)
+  fo_taxes : list (option (Z * Z * list Z));
+  fo_limits : list (option (Z * Z * list Z))
 }.
 
 Inductive case :=
@@ -69,11 +73,22 @@ Fixpoint replay (accts : list Z) (s : state) (steps : list (op * stepobs)) : opt
       if step_ok accts s' out ob then replay accts s' r else None
   end.
 
+Definition period_code (p : period) : Z :=
+  match p with PNone => 0 | PDaily => 1 | PWeekly => 2 | PMonthly => 3 | PYearly => 4 end.
+Definition taxcfg_obs (c : option taxcfg) : option (Z * Z * list Z) :=
+  match c with None => None | Some c => Some (tc_num c, tc_den c, tc_exempt c) end.
+Definition limcfg_obs (c : option limcfg) : option (Z * Z * list Z) :=
+  match c with None => None | Some c => Some (lc_limit c, period_code (lc_period c), lc_exempt c) end.
+Definition cfg_eqb (a b : Z * Z * list Z) : bool :=
+  let '(a1, a2, a3) := a in let '(b1, b2, b3) := b in (a1 =? b1) && (a2 =? b2) && list_eqb Z.eqb a3 b3.
+
 Definition final_ok (accts toks : list Z) (s : state) (f : finalobs) : bool :=
   same_set tx_eqb (map tx_obs (pool s)) (fo_pool f)
   && same_set batch_eqb (map (fun b => (b_nonce b, b_tok b, map tx_obs (b_txs b))) (batches s)) (fo_batches f)
   && list_eqb (list_eqb Z.eqb) (map (fun t => map (fun a => bal s a t) accts) toks) (fo_bals f)
-  && list_eqb (option_eqb zz_eqb) (map (fun t => usage_obs (usages s t)) toks) (fo_usages f).
+  && list_eqb (option_eqb zz_eqb) (map (fun t => usage_obs (usages s t)) toks) (fo_usages f)
+  && list_eqb (option_eqb cfg_eqb) (map (fun t => taxcfg_obs (taxes s t)) toks) (fo_taxes f)
+  && list_eqb (option_eqb cfg_eqb) (map (fun t => limcfg_obs (limits s t)) toks) (fo_limits f).
 
 Definition check (c : case) : bool :=
   match c with
